@@ -839,9 +839,18 @@ def provKey (m : MixinName) : Nat :=
 /-- how often a provider occurs -/
 def provCount (l : List (Option MixinName)) (m : MixinName) : Nat := l.count (some m)
 
-/-- the `mix_len` providers are exactly the expected ones, each once (`exp`), nothing else contributes -/
+def insertByKey (m : MixinName) : List MixinName → List MixinName
+  | [] => [m]
+  | x :: xs => if provKey m ≤ provKey x then m :: x :: xs else x :: insertByKey m xs
+
+/-- insertion sort by `provKey` (structural, so that `decide` evaluates it) -/
+def sortByKey : List MixinName → List MixinName
+  | [] => []
+  | x :: xs => insertByKey x (sortByKey xs)
+
+/-- the `mix_len` providers (ignoring the `none`s, which contribute 0) are a permutation of the expected list -/
 def lenProvidersAre (l : List (Option MixinName)) (exp : List MixinName) : Bool :=
-  l.all (fun o => match o with | none => true | some m => exp.contains m) && exp.all (fun m => provCount l m == 1)
+  sortByKey (l.filterMap id) == sortByKey exp && exp.all (fun m => provKey m < 99)
 
 inductive Family where | plain | signedV1 | signedV21 | encrypted
   deriving Repr, DecidableEq
@@ -942,7 +951,7 @@ def cfgWF (c : Cls) (cfg : Cfg) : Bool :=
         && certV1Size cfg.cert == cfg.cert.length && cfg.sigLen > 0)
   && (c.has .Mbi_MixinCertBlockV21 → !cfg.cert.isEmpty && cfg.sigLen > 0)
   && (!(c.has .Mbi_MixinCertBlockV1 || c.has .Mbi_MixinCertBlockV21) → cfg.cert.isEmpty && cfg.sigLen == 0)
-  && (c.manifestKind != some .digest → cfg.digest.isNone)
+  && (c.manifestKind != some .digest → cfg.digest.isNone) && cfg.digest != some .sha1
   && (c.manifestKind.isNone → cfg.fwVersion == 0)
   && (!c.has .Mbi_MixinImageVersion → cfg.imageVersion == 0) && (!c.has .Mbi_MixinImageSubType → cfg.subType == 0)
   && (!c.has .Mbi_MixinHwKey → !cfg.hwKey) && (!c.has .Mbi_MixinLoadAddress → cfg.loadAddress == 0)
